@@ -314,7 +314,9 @@ def splice_fn(src, item, ann):
     bt = _retok(body)
     edits = []  # (offset, text)
     loops = ann.get('loops') or {}
-    if loops:
+    loopentry = ann.get('loopentry') or {}
+    loopexit = ann.get('loopexit') or {}
+    if loops or loopentry or loopexit:
         seen = 0
         for k, t in enumerate(bt):
             if t[0] == 'ident' and t[1] in ('for', 'while', 'loop'):
@@ -324,6 +326,16 @@ def splice_fn(src, item, ann):
                 if t[1] == 'for' and bt[nx][1] == '<':
                     continue
                 seen += 1
+                if seen in loopexit:
+                    ob = _find_top(bt, k + 1, lambda x: x[1] == '{')
+                    if ob < 0:
+                        raise ExtractError('%s::%s: loop %d has no body' % (src.rel, item.name, seen))
+                    edits.append((bt[match_close(bt, ob)][3], '\n' + loopexit[seen].rstrip() + '\n'))
+                if seen in loopentry:
+                    ob = _find_top(bt, k + 1, lambda x: x[1] == '{')
+                    if ob < 0:
+                        raise ExtractError('%s::%s: loop %d has no body' % (src.rel, item.name, seen))
+                    edits.append((bt[ob][3], '\n' + loopentry[seen].rstrip() + '\n'))
                 if seen in loops:
                     spec = loops[seen]
                     ob = _find_top(bt, k + 1, lambda x: x[1] == '{')
@@ -335,9 +347,13 @@ def splice_fn(src, item, ann):
                             raise ExtractError('%s::%s: loop %d is not a for loop' % (src.rel, item.name, seen))
                         kin = _find_top(bt, k + 1, lambda x: x[0] == 'ident' and x[1] == 'in')
                         edits.append((bt[kin][3], ' ' + spec['iter'] + ':'))
-        missing = [n for n in loops if n > seen]
+        missing = [n for n in list(loops) + list(loopentry) + list(loopexit) if n > seen]
         if missing:
             raise ExtractError('lost anchor: %s::%s has %d loops, annotation for loop %s' % (src.rel, item.name, seen, missing))
+    if ann.get('entry'):
+        # proof text at the very start of the body: needs no statement anchor, so it survives any rewrite of the body
+        assert body[0] == '{'
+        edits.append((1, '\n' + ann['entry'].rstrip() + '\n'))
     for where in ('before', 'after'):
         for (nth, needle, text) in ann.get(where) or []:
             pos, cnt, s = -1, 0, 0
